@@ -663,3 +663,23 @@ package engine
 //@   ensures [C05.req.handshake] codeMessage == nil && sid == "" ==> calls(BaseServer.Handshake) == 1 && calls(transports.Transport.OnRequest) == 0
 //@   ensures [C05.req.hsreject]  codeMessage == nil && sid == "" && ret(BaseServer.Handshake, 1, 1) == nil ==> calls(abortRequest) == 1 && arg(abortRequest, 1, codeMessage) == ret(BaseServer.Handshake, 1, 0) && calls((*server).emitAbortRequest) == 0
 //@   ensures [C05.req.hsaccept]  codeMessage == nil && sid == "" && ret(BaseServer.Handshake, 1, 1) != nil ==> calls(abortRequest) == 0
+
+// ---- refinement: the Socket model fields are the session's own state; the getters are proved against the model contracts
+//@ represents (*socket) Socket.$transport = this.Transport()
+//@ represents (*socket) Socket.$rstate = this.ReadyState()
+//@ represents (*socket) Socket.$upgrading = this.upgrading.v != 0
+//@ represents (*socket) Socket.$upgraded = this.upgraded.v != 0
+//@ func (*socket).Transport()
+//@   inline
+//@   requires s != nil && s.transport.v != nil && deref((*transports.Transport)(s.transport.v)) != nil   // a transport is attached from Construct on (setTransport stores a non-nil one: C08.settransport)
+//@   modifies nothing
+//@ func (*socket).ReadyState()
+//@   inline
+//@   requires s != nil
+//@   modifies nothing
+//@ func (*socket).Upgrading()
+//@   requires s != nil
+//@   modifies nothing
+//@ func (*socket).Upgraded()
+//@   requires s != nil
+//@   modifies nothing
